@@ -224,8 +224,88 @@ func condFromLookup(cond ssa.Value, owner ssa.Value, field string, depth int) (s
 	return nil, false
 }
 
+// retractors: the Lisp functions whose purpose is to take a definition away.
+var retractors = map[string]bool{"fmakunbound": true, "makunbound": true, "unintern": true, "unexport": true, "undefflavor": true, "delete-package": true}
+
+// c13callers: who may call the retracting methods of Package.
+func c13callers(c *core.Ctx, r *core.Reporter) {
+	const rule = "C13.callers"
+	r.Rule(rule, "the methods of Package that take a definition away from the package and from the packages using it (Undefine, Remove, Unexport) are called, outside package slip itself, only from the built-ins whose purpose that is (fmakunbound, makunbound, unintern, unexport, undefflavor, delete-package): a defining form that retracts first silently undoes an earlier export", 4)
+	byCall := map[*ssa.Function]string{}
+	byRecv := map[string]string{}
+	recvKey := func(fn *ssa.Function) string {
+		if fn.Signature.Recv() == nil {
+			return ""
+		}
+		rt := fn.Signature.Recv().Type()
+		if pt, isP := rt.(*types.Pointer); isP {
+			rt = pt.Elem()
+		}
+		return types.TypeString(rt, nil)
+	}
+	for _, b := range c.Registry() {
+		if b.Call != nil {
+			if fn := c.SSAFunc(b.Call); fn != nil {
+				byCall[fn] = strings.ToLower(b.Name)
+				if k := recvKey(fn); k != "" {
+					if old, dup := byRecv[k]; !dup || !retractors[old] {
+						byRecv[k] = strings.ToLower(b.Name)
+					}
+				}
+			}
+		}
+	}
+	n := map[string]int{}
+	for _, fn := range c.ModuleFuncs() {
+		if takesTestingT(fn) || fn.Pkg == nil || fn.Pkg.Pkg.Path() == core.SlipPath {
+			continue
+		}
+		for _, b := range fn.Blocks {
+			for _, in := range b.Instrs {
+				call, ok := in.(*ssa.Call)
+				if !ok {
+					continue
+				}
+				g := call.Call.StaticCallee()
+				if g == nil || g.Signature.Recv() == nil {
+					continue
+				}
+				rt := g.Signature.Recv().Type()
+				if pt, isP := rt.(*types.Pointer); isP {
+					rt = pt.Elem()
+				}
+				if !core.IsNamed(rt, core.SlipPath, "Package") {
+					continue
+				}
+				switch g.Name() {
+				case "Undefine", "Remove", "Unexport":
+				default:
+					continue
+				}
+				root := fn
+				for root.Parent() != nil {
+					root = root.Parent()
+				}
+				who, isBuiltin := byCall[root]
+				if !isBuiltin {
+					// a helper method of the built-in's own type
+					who, isBuiltin = byRecv[recvKey(root)]
+				}
+				key := fmt.Sprintf("%s|Package.%s", core.SSAName(fn), g.Name())
+				n[key]++
+				if k := n[key]; k > 1 {
+					key = fmt.Sprintf("%s#%d", key, k)
+				}
+				ok2 := isBuiltin && retractors[who]
+				r.Decide(ok2, rule, key, c.Pos(call.Pos()), fmt.Sprintf("called from the built-in %q; a retracting built-in: %v", who, ok2))
+			}
+		}
+	}
+}
+
 func runC13(c *core.Ctx, r *core.Reporter) {
 	c.BuildSSA()
+	c13callers(c, r)
 	an := lenflow.New(c)
 	const push = "C13.push"
 	const own = "C13.own"
